@@ -24,3 +24,6 @@ func (a *ArgResolver) VerifStrategies() []any {
 
 // VerifFixed exposes the id/value pair of a FixedValueResolver.
 func (f FixedValueResolver) VerifFixed() (string, string) { return f.id, f.value }
+
+// VerifInner exposes the argument resolver a ParamResolver delegates to.
+func (p ParamResolver) VerifInner() any { return p.resolver }
